@@ -130,6 +130,35 @@ pub fn zz_safe_bound_set_before(v: &[u8; 8], parts: &[u8]) -> u8 {
     for i in (lo + shift..8).rev() { s = s.wrapping_add(v[i - shift]); }
     s
 }
+pub struct ZzC { c: std::cell::RefCell<Vec<u8>> }
+impl ZzC {
+    fn zz_shrink(&self) { self.c.borrow_mut().clear(); }
+    pub fn zz_unsafe_cell_via_helper(&self, i: usize) -> u8 {
+        if i < self.c.borrow().len() { self.zz_shrink(); return self.c.borrow()[i]; }
+        0
+    }
+    pub fn zz_safe_cell(&self, i: usize) -> u8 {
+        if i < self.c.borrow().len() { return self.c.borrow()[i]; }
+        0
+    }
+}
+pub fn zz_unsafe_owned_vec(n: u8, i: usize) -> u8 {
+    let mut v = vec![n, n, n];
+    if i < v.len() { v.pop(); return v[i]; }
+    0
+}
+pub fn zz_unsafe_owned_named_len(n: u8) -> u8 {
+    let mut v = vec![n, n, n];
+    let k = v.len();
+    v.clear();
+    if k > 0 { return v[k - 1]; }
+    0
+}
+pub fn zz_safe_owned_vec(n: u8, i: usize) -> u8 {
+    let v = vec![n, n, n];
+    if i < v.len() { return v[i]; }
+    0
+}
 pub fn zz_safe_guard(v: &Vec<u8>, i: usize) -> u8 {
     if i < v.len() { return v[i]; }
     0
